@@ -149,7 +149,7 @@ def specJudge (XS : XmlSpec.SpecExt) (t : Ty) (doc : Bytes) (status payload : St
       -- a well-formed document that fits the type (any member order) must be accepted; only the lexical space of
       -- the non-string scalars (white space around numbers / booleans …) is left to the implementation
       if payload = "InvalidContent" then none
-      -- the class `xml-xsi-type` (repaired by 1dc4ea8, no longer listed as open: any case of it is a violation again)
+      -- the class `xml-xsi-type` (repaired by 680006e, no longer listed as open: any case of it is a violation again)
       else if hasSub ([32] ++ xsiType ++ [61]) doc then some ("xml-xsi-type", "document in the Smithy form (xsi:type attribute) rejected: " ++ payload)
       else some ("xml-valid-refused-" ++ payload, "a well-formed document that fits the type is refused: " ++ payload)
     | .error _ => none
